@@ -7,6 +7,13 @@ BASELINE = "cd /repo && /venv/bin/python -m pytest -ra -q -p no:cacheprovider --
 
 # id -> (technique, level text, level note, design ref)
 CHECKS = {
+    "C01": (
+        "property-based testing (Hypothesis core-grammar statement generator x 34 dialects x 2 streams) with a round-trip oracle: parse-generate fixpoint, reparse, tree equality (== and independent fingerprint) and time-format identity in base",
+        "Generated-input search: every statement is round-tripped in every dialect directly and through the dialect's own surface syntax; failures are reduced to the smallest sub-tree that fails the same way and keyed by (dialect, kind, node class). "
+        "The base dialect and every dialect without catalogued buckets are strict; catalogued (dialect, kind, construct) buckets in known_findings.json were collected by two 3.5M-case campaigns and each is tied to a root cause with a witness.",
+        "A statement that does not parse in d is outside d's domain. Bucket granularity is the node class of the minimal failing sub-tree (or 'ctx' when the failure only reproduces in context), so a new defect in an already catalogued (dialect, kind, class) cell is masked.",
+        "DESIGN.md §C01",
+    ),
     "C02": (
         "property-based testing (Hypothesis typed query + database generator) with a differential oracle: source engine vs target engine (sqlite3, duckdb) on transpiled text, four dialect pairs",
         "Generated-input search over typed common-fragment queries and NULL-bearing databases; each query runs on its source engine and its transpiled text on the target engine, rows compared as multisets or as sequences under a total ORDER BY. "
